@@ -588,8 +588,9 @@ def _pool(tier, seed):
   VERIF_SEED-selected quarter of the typed values (quick)"""
   if tier == "thorough":
     return g.VALUE_POOL, "whole value pool"
-  rest = g.VALUE_POOL[len(g.GENERIC):]
-  return g.VALUE_POOL[:len(g.GENERIC)] + rest[seed % 4::4], f"boundary values + quarter {seed % 4} of 4 of the typed value pool (VERIF_SEED selects)"
+  keep = len(g.GENERIC) + len(g.ALWAYS_VALUES)
+  rest = g.VALUE_POOL[keep:]
+  return g.VALUE_POOL[:keep] + rest[seed % 4::4], f"boundary values + quarter {seed % 4} of 4 of the typed value pool (VERIF_SEED selects)"
 
 
 def seed_families(tier, seed):
